@@ -2,10 +2,12 @@ import Driver.Reach
 import Driver.Conn
 import Driver.Json
 import Driver.Txt
+import Driver.Accept
 
 def main (args : List String) : IO UInt32 := do
   match args with
   | "reach" :: rest => Driver.reachMain rest
+  | ["accept"] => Driver.Accept.acceptMain
   | ["txtqr"] => Driver.Txt.txtMain
   | ["json"] => Driver.Json.jsonMain
   | ["conn"] => Driver.Conn.connMain
